@@ -770,7 +770,8 @@ func (s *sharedEntryAttributes) Navigate(ctx context.Context, path []string, isR
 	default:
 		e, exists := s.filterActiveChoiceCaseChilds()[path[0]]
 		if !exists {
-			e, _ = s.tryLoading(ctx, append(s.Path(), path...))
+			// tryLoading expects the path relative to this entry
+			e, _ = s.tryLoading(ctx, path)
 			if e != nil {
 				exists = true
 			}
